@@ -1318,11 +1318,15 @@ public:
 
         classifier_.build(samples.data(), sample_size, splitter_lcp_);
 
-        // create new jobs
-        pwork_ = parts_;
-        for (unsigned int p = 0; p < parts_; ++p)
+        // create new jobs. once the last job is enqueued, other threads may
+        // finish the whole step and delete this object: the loop must not read
+        // members any more.
+        const size_t parts = parts_;
+        Context& ctx = ctx_;
+        pwork_ = parts;
+        for (unsigned int p = 0; p < parts; ++p)
         {
-            ctx_.threads_.enqueue([this, p]() { count(p); });
+            ctx.threads_.enqueue([this, p]() { count(p); });
         }
     }
 
@@ -1385,11 +1389,15 @@ public:
         }
         assert(sum == strptr_.size());
 
-        // create new jobs
-        pwork_ = parts_;
-        for (unsigned int p = 0; p < parts_; ++p)
+        // create new jobs. once the last job is enqueued, other threads may
+        // finish the whole step and delete this object: the loop must not read
+        // members any more.
+        const size_t parts = parts_;
+        Context& ctx = ctx_;
+        pwork_ = parts;
+        for (unsigned int p = 0; p < parts; ++p)
         {
-            ctx_.threads_.enqueue([this, p]() { distribute(p); });
+            ctx.threads_.enqueue([this, p]() { distribute(p); });
         }
     }
 
